@@ -18,6 +18,8 @@ import (
 	"os"
 	"sort"
 	"strconv"
+	"sync/atomic"
+	"time"
 
 	"github.com/db47h/decimal"
 	dctx "github.com/db47h/decimal/context"
@@ -259,6 +261,8 @@ func (m *machine) exec(s M) (ret any) {
 		m.reg(s, "z").Copy(m.reg(s, "x"))
 	case "SetPrec":
 		m.reg(s, "z").SetPrec(uint(unum(s, "p")))
+	case "SetPrecMax":
+		m.reg(s, "z").SetPrec(decimal.MaxPrec)
 	case "SetMode":
 		m.reg(s, "z").SetMode(decimal.RoundingMode(num(s, "m")))
 	case "SetInf":
@@ -481,12 +485,16 @@ func (m *machine) exec(s M) (ret any) {
 
 var curThr = []int{30, 10, 50}
 
+// heartbeat holds the start time (unix ns) of the library call in progress, 0 when none
+var heartbeat int64
+
 func main() {
 	// scratch buffers are poisoned when handed out and when put back: a use after put, or a
 	// reliance on zeroed scratch memory, corrupts results deterministically (C18, C06)
 	decimal.VerifPoolEnable(true, nil)
 	in := flag.String("in", "", "programs (ndjson)")
 	out := flag.String("out", "", "events (ndjson)")
+	stepTimeout := flag.Duration("steptimeout", 60*time.Second, "give up (exit 3, events so far are kept) when one step runs longer than this")
 	flag.Parse()
 	fi, err := os.Open(*in)
 	if err != nil {
@@ -500,6 +508,19 @@ func main() {
 	}
 	w := bufio.NewWriterSize(fo, 1<<20)
 	enc := json.NewEncoder(w)
+	// watchdog: a library call that does not return (a defect can make later operations loop) must not void
+	// the events already recorded; the main goroutine is stuck inside the call, so flushing here is safe
+	go func() {
+		for {
+			time.Sleep(time.Second)
+			if last := atomic.LoadInt64(&heartbeat); last != 0 && time.Since(time.Unix(0, last)) > *stepTimeout {
+				w.Flush()
+				fo.Close()
+				fmt.Fprintln(os.Stderr, "vexec: step timeout: a library call did not return")
+				os.Exit(3)
+			}
+		}
+	}()
 	sc := bufio.NewScanner(fi)
 	sc.Buffer(make([]byte, 1<<20), 1<<30)
 	for sc.Scan() {
@@ -589,6 +610,8 @@ func (m *machine) observe(ev M, full []string) {
 }
 
 func (m *machine) step(s M, ev M) {
+	atomic.StoreInt64(&heartbeat, time.Now().UnixNano())
+	defer atomic.StoreInt64(&heartbeat, 0)
 	defer func() {
 		if r := recover(); r != nil {
 			switch e := r.(type) {
